@@ -1,3 +1,3 @@
 From Coq Require Import ExtrOcamlBasic ZArith.
-From CppUVerif Require Import C07_Model.
-Extraction "c07_model.ml" C07_Model.run C07_Model.spec C07_Model.valid BinInt.Z.of_N.
+From CppUVerif Require Import C07_Model C07_ModelM.
+Extraction "c07_model.ml" C07_ModelM.mrun C07_ModelM.mspec C07_ModelM.mvalid BinInt.Z.of_N.
